@@ -122,7 +122,7 @@ PROPS = {
         "engines": [storm("admin")],
         "rule": "each evaluation is one bank image changed by a delegated-admin instruction (field-level diff against the role's mask built with offset_of!), one instruction executed on a frozen bank (protected fields and freeze bit), or one deleverage withdrawal (reference daily window); distinct = (instruction, set of changed fields) pairs",
         "assumptions": COMMON_ASSUMPTIONS,
-        "floors": {"quick": {"scen.first_withdrawal_of_a_new_day_attempts": 5, "scen.two_deleverage_starts_one_end_attempts": 30, "ix_ok/ForceTokenlessRepayComplete": 200, "C12.delegated_instructions/ConfigureBankInterestOnly": 100, "C12.delegated_instructions/ConfigureBankLimitsOnly": 100, "C12.delegated_instructions/ConfigureBankEmode": 100, "C12.delegated_instructions/UpdateEmissionsParameters": 100, "C12.instructions_on_frozen_bank/ConfigureBank": 50, "C12.instructions_on_frozen_bank/PropagateStakedSettings": 10, "C12.deleverage_withdrawals": 5, "scen.whale_deleverage_rejected/6101": 20}},
+        "floors": {"quick": {"scen.deleverage_withdraw_all_above_limit_attempts": 10, "scen.first_withdrawal_of_a_new_day_attempts": 5, "scen.two_deleverage_starts_one_end_attempts": 30, "ix_ok/ForceTokenlessRepayComplete": 200, "C12.delegated_instructions/ConfigureBankInterestOnly": 100, "C12.delegated_instructions/ConfigureBankLimitsOnly": 100, "C12.delegated_instructions/ConfigureBankEmode": 100, "C12.delegated_instructions/UpdateEmissionsParameters": 100, "C12.instructions_on_frozen_bank/ConfigureBank": 50, "C12.instructions_on_frozen_bank/PropagateStakedSettings": 10, "C12.deleverage_withdrawals": 5, "scen.whale_deleverage_rejected/6101": 20}},
     },
     "C13": {
         "engines": [storm("admin")],
@@ -134,12 +134,12 @@ PROPS = {
         "engines": [storm("matrix")],
         "rule": "even shards: matrix financial instruction x bank state {Paused, ReduceOnly, Killed via a real wipe-out} with positive controls, reduce-only valuation cells, and protocol-pause timing cells at start+{0,1,1799,1800,1801} with three propagation orders, committed so that the behavioural oracle (no vault / position movement during the group's pause window) sees them; odd shards: storm; distinct = (cell, state, outcome, error code)",
         "assumptions": COMMON_ASSUMPTIONS + ["'in force for a group' is defined by the pause state recorded in the group's own cache (DESIGN 4 C14)"],
-        "floors": {"quick": {"pulse.levels_compared_for_accounts_with_reduce_only_deposits": 50, "pulse.health_signs_compared/maintenance": 100, "C14.matrix_controls_ok": 100, "C14.matrix_state_cells": 200, "C14.pause_window_cells": 300, "C14.after_expiry_cells": 200, "C14.receivership_on_paused_bank_cells": 30, "scen.bank_killed": 2}},
+        "floors": {"quick": {"C14.second_pause_without_intermediate_propagation": 20, "pulse.levels_compared_for_accounts_with_reduce_only_deposits": 50, "pulse.health_signs_compared/maintenance": 100, "C14.matrix_controls_ok": 100, "C14.matrix_state_cells": 200, "C14.pause_window_cells": 300, "C14.after_expiry_cells": 200, "C14.receivership_on_paused_bank_cells": 30, "scen.bank_killed": 2}},
     },
     "C19": {
         "engines": [storm("admin")],
         "rule": "each evaluation is one fee collection (token deltas of the five accounts vs bucket reductions), one draw-down of a fee / insurance vault (signer rule), one emissions credit / payout (conservation, proportional bound, destination) or one commit-time emissions-vault cover check; distinct = (clamp class, bucket signs, fractional, transfer-fee) and emission event classes",
         "assumptions": COMMON_ASSUMPTIONS,
-        "floors": {"quick": {"admin.fees_destination_update_by_foreign_group_admin": 10, "C19.collections": 300, "C19.emission_payouts": 50, "C19.emission_lower_bounds_checked": 300, "C19.emission_lower_bounds_checked_borrow_side": 30, "C19.insurance_vault_drawdowns/WithdrawInsurance": 20}},
+        "floors": {"quick": {"admin.fee_wallet_rotations": 100, "admin.collect_after_wallet_rotation/old-wallet/refused": 100, "admin.emissions_in_receivership_rounds": 8, "admin.fees_destination_update_by_foreign_group_admin": 10, "C19.collections": 300, "C19.emission_payouts": 50, "C19.emission_lower_bounds_checked": 300, "C19.emission_lower_bounds_checked_borrow_side": 30, "C19.insurance_vault_drawdowns/WithdrawInsurance": 20}},
     },
 }
